@@ -24,7 +24,7 @@ class SimAbort(BaseException):
 
 
 class SimThread(object):
-  __slots__ = ('tid', 'name', 'target', 'gate', 'state', 'blocked_on', 'npoints', 'hot_events', 'nhot',
+  __slots__ = ('tid', 'name', 'target', 'gate', 'state', 'blocked_on', 'npoints', 'hot_events', 'nhot', 'after',
                'exc', 'result', 'real', 'events', 'atomic', 'held', 'data')
 
   def __init__(self, tid, name, target):
@@ -42,6 +42,7 @@ class SimThread(object):
     self.events = {}      # k-th point of this thread -> [callable(sim, thread)]
     self.hot_events = {}  # k-th *hot* point of this thread -> [callable]
     self.nhot = 0
+    self.after = None     # tid that must have ended (OS thread exited) before this thread is created
     self.atomic = 0
     self.held = []        # simulated locks currently held (for probes)
     self.data = {}        # workload scratch
@@ -212,10 +213,23 @@ class Sim(object):
     self.lock_listeners = []      # callables(kind, lock, thread)
 
   # -- construction -------------------------------------------------------
-  def add_thread(self, name, target):
+  def add_thread(self, name, target, after=None):
+    """`after`: the simulated thread is created (as a real OS thread) only once
+    thread `after` has ended and its OS thread has exited - so the newcomer may
+    be given the same thread identifier."""
     t = SimThread(len(self.threads), name, target)
+    t.after = after
     self.threads.append(t)
     return t
+
+  def forget_thread(self, tid):
+    """Drops the simulator's reference to the (ended) thread's Thread object,
+    as a program does that no longer keeps its worker objects."""
+    t = self.threads[tid]
+    if t.state is DONE and t.real is not None and not t.real.is_alive():
+      t.real = None
+      return True
+    return False
 
   def at_point(self, tid, k, fn):
     """Schedule environment event `fn(sim, thread)` at thread tid's k-th point."""
@@ -261,22 +275,32 @@ class Sim(object):
     boot.CURRENT_SIM = self
     try:
       for t in self.threads:
-        t.real = threading.Thread(target=self._thread_main, args=(t,),
-                                  name='sim-%d' % t.tid, daemon=True)
-        t.state = RUNNABLE
+        if t.after is None:
+          t.real = threading.Thread(target=self._thread_main, args=(t,),
+                                    name='sim-%d' % t.tid, daemon=True)
+          t.state = RUNNABLE
       for t in self.threads:
-        t.real.start()
+        if t.after is None:
+          t.real.start()
       # every thread is now parked on its gate (or about to be: the gate is
       # already held, so acquire() blocks whenever they get there)
       self.strategy.start(self)
       if self.tracer is not None:
         self.tracer.start()
       if self.threads:
-        first = self.strategy.pick(self, [t for t in self.threads])
+        first = self.strategy.pick(self, [t for t in self.threads if t.state is RUNNABLE])
         self._open_segment(first)
         self.cur = first
         first.gate.release()
         self._main_gate.acquire()
+        # late threads: created by the controller once their predecessor's OS thread is gone
+        while self.outcome is None and self._spawn_late():
+          runnable = [t for t in self.threads if t.state is RUNNABLE]
+          nxt = self.strategy.pick(self, runnable)
+          self._open_segment(nxt, 'b')
+          self.cur = nxt
+          nxt.gate.release()
+          self._main_gate.acquire()
       if self.outcome is None:
         self.outcome = {'status': 'ok'}
     finally:
@@ -284,6 +308,23 @@ class Sim(object):
         self.tracer.stop()
       boot.CURRENT_SIM = None
     return self.outcome
+
+  def _late_ready(self):
+    return [t for t in self.threads if t.state is NEW and t.after is not None
+            and self.threads[t.after].state is DONE]
+
+  def _spawn_late(self):
+    started = False
+    for t in self._late_ready():
+      pred = self.threads[t.after]
+      if pred.real is not None:
+        pred.real.join()          # its OS thread (and identifier) is released
+      t.real = threading.Thread(target=self._thread_main, args=(t,), name='sim-%d' % t.tid, daemon=True)
+      t.state = RUNNABLE
+      t.real.start()
+      self._ev(t.tid, 'N', 'spawned-after', t.after)
+      started = True
+    return started or any(t.state is RUNNABLE for t in self.threads)
 
   def _thread_main(self, t):
     self._by_ident[_thread.get_ident()] = t
@@ -309,6 +350,10 @@ class Sim(object):
 
   def _leave(self, me):
     """`me` cannot continue (blocked or done): hand the baton on."""
+    if me.state is DONE and self._late_ready():
+      self.cur = None
+      self._main_gate.release()
+      return None
     runnable = [t for t in self.threads if t.state is RUNNABLE]
     if not runnable:
       blocked = [t for t in self.threads if t.state is BLOCKED]
